@@ -94,3 +94,48 @@ RESERVED_NAMES = frozenset(
         "cls",  # Refer PEP8 https://peps.python.org/pep-0008/#function-and-method-arguments
     ]
 )
+
+# Names that the generated service modules bind at module level by importing
+# standard library and dependency modules (`import re`,
+# `from google.api_core import gapic_v1`, ...). A types module of the API with
+# one of these base names (`re.proto`, `json.proto`, `gapic_v1.proto`) is
+# imported under a package-derived alias so that it does not shadow them.
+IMPORTED_MODULE_NAMES = frozenset(
+    [
+        "abc",
+        "aio",
+        "client_logging",
+        "client_options_lib",
+        "core_exceptions",
+        "dataclasses",
+        "extended_operation",
+        "functools",
+        "ga_credentials",
+        "gapic_v1",
+        "google",
+        "grpc",
+        "grpc_helpers",
+        "grpc_helpers_async",
+        "inspect",
+        "json",
+        "json_format",
+        "logging",
+        "mtls",
+        "operations_v1",
+        "os",
+        "path_template",
+        "pickle",
+        "proto",
+        "re",
+        "requests_version",
+        "rest_helpers",
+        "rest_streaming",
+        "retries",
+        "retries_async",
+        "service_account",
+        "std_logging",
+        "uuid",
+        "version_header",
+        "warnings",
+    ]
+)
